@@ -92,6 +92,7 @@ type sess struct {
 	ownerPub crypto.PublicKey
 
 	has65      bool        // 64/65 completed: kx holds the tunnel keys
+	srvKex     bool        // the owner answered a ProveDevice of this session with 65: its key exchange is complete (whether or not this client could derive the keys)
 	rekeyed    bool        // the owner accepted a SECOND ProveDevice (ASYMKEX): it now holds keys derived from its own cleared parameter, nobody else has them
 	kx         kex.Session //
 	repl       fdo.VoucherHeader
@@ -263,14 +264,14 @@ func (d *Driver) Do(s Step) (res Result) {
 	}
 	// a second ProveDevice in a session whose key exchange is complete: ECDH and DH sessions take no second parameter
 	// ("already completed"), the ASYMKEX session simply re-keys
-	if s.Msg == 64 && tc != nil && tc.has65 && d.cfg.Kex != kex.ASYMKEX2048Suite && d.cfg.Kex != kex.ASYMKEX3072Suite {
+	if s.Msg == 64 && tc != nil && tc.srvKex && d.cfg.Kex != kex.ASYMKEX2048Suite && d.cfg.Kex != kex.ASYMKEX3072Suite {
 		res.OK = false
 	}
 	res.Enc = tunnelled(s.Msg) && enc && own
 	if tc != nil && tc.rekeyed && tunnelled(s.Msg) {
 		res.Enc, res.OK = false, false
 	}
-	second64 := s.Msg == 64 && tc != nil && tc.has65
+	second64 := s.Msg == 64 && tc != nil && tc.srvKex
 	res.Hmac = s.Msg == 66 && b.hmac && !mangles(s.Fault)
 	if tunnelled(s.Msg) && !enc {
 		res.OK = false
@@ -318,6 +319,9 @@ func (d *Driver) Do(s Step) (res Result) {
 	}
 	if second64 && res.RespType == 65 {
 		tc.rekeyed = true
+	}
+	if s.Msg == 64 && tc != nil && res.RespType == 65 {
+		tc.srvKex = true
 	}
 	return res
 }
